@@ -367,6 +367,7 @@ func (p Parameters) Equal(other *Parameters) (res bool) {
 	res = p.ResidualParameters.Equal(&other.ResidualParameters)
 	res = res && p.BootstrappingParameters.Equal(&other.BootstrappingParameters)
 	res = res && p.EphemeralSecretWeight == other.EphemeralSecretWeight
+	res = res && p.CircuitOrder == other.CircuitOrder
 	res = res && cmp.Equal(p.SlotsToCoeffsParameters, other.SlotsToCoeffsParameters)
 	res = res && cmp.Equal(p.Mod1ParametersLiteral, other.Mod1ParametersLiteral)
 	res = res && cmp.Equal(p.CoeffsToSlotsParameters, other.CoeffsToSlotsParameters)
